@@ -406,6 +406,8 @@ impl Prop for C15 {
             let tag = format!("strarg-{}-{}{}", match size { StrSize::BlobEnd(_) => "bs", StrSize::Pascal(_) => "pascal", StrSize::Fixed(_, false) => "len", _ => "len-nulless" }, if mask == [0, 0, 0] { "nomask" } else { "mask" }, if furibug { if with_state { "-furibug-pending" } else { "-furibug" } } else { "" });
             out.push(Case::corr(c12::call_case("call", Lang::Anm, &[abi], &[(0, args)], &[])).tag(tag).trivial(text.is_empty()));
         }
+        // block-wise C strings for every block size: the real write_cstring / read_cstring_blockwise against the model
+        super::c12_parts::gen_cstr(tier, rng, &mut out);
         out
     }
 
@@ -421,6 +423,7 @@ impl Prop for C15 {
             Some("anm") => eval_anm(a[0].as_atom(), a[1].as_atom()),
             Some("mission") => eval_mission(a[0].as_atom(), a[1].as_i64() as u32, a[2].as_i64() as u32, a[3].as_i64() as u32, &a[4..].iter().map(|x| x.as_atom().to_string()).collect::<Vec<_>>()),
             Some("call") => c12::C12.eval(case),
+            Some("cstr") => super::c12_parts::eval_cstr(case),
             _ => Sexp::atom("bad-case"),
         }
     }
@@ -430,6 +433,7 @@ impl Prop for C15 {
         match case.head() {
             Some("sweep") => judge_sweep(case, result),
             Some("call") => c12::C12.judge(case, result),
+            Some("cstr") => super::c12_parts::judge_cstr(case, result),
             _ => None,
         }
     }
